@@ -14,6 +14,7 @@ type State struct {
 	pc   string            // path condition
 	heap map[string]string // heap array name -> current term
 	next string            // allocation counter
+	base string            // version suffix of the initial heap arrays ("" = "0")
 }
 
 func (s *State) clone() *State {
@@ -21,7 +22,7 @@ func (s *State) clone() *State {
 	for k, v := range s.heap {
 		h[k] = v
 	}
-	return &State{pc: s.pc, heap: h, next: s.next}
+	return &State{pc: s.pc, heap: h, next: s.next, base: s.base}
 }
 
 func q(sym string) string { return "|" + sym + "|" }
@@ -54,8 +55,13 @@ func (e *Env) heapGet(st *State, name, sort string) string {
 	if t, ok := st.heap[name]; ok {
 		return t
 	}
-	init := q(name + "@0")
-	if !e.declared[name] {
+	base := st.base
+	if base == "" {
+		base = "0"
+	}
+	init := q(name + "@" + base)
+	if !e.declared[name+"@"+base] {
+		e.declared[name+"@"+base] = true
 		e.declared[name] = true
 		e.heapSorts[name] = sort
 		e.sess.Cmd("(declare-const " + init + " " + sort + ")")
@@ -327,7 +333,7 @@ func (e *Env) mergeStates(sts []*State) *State {
 	for _, s := range sts {
 		pcs = append(pcs, s.pc)
 	}
-	out := &State{pc: e.maybeName(mkOr(pcs...), sBool), heap: map[string]string{}}
+	out := &State{pc: e.maybeName(mkOr(pcs...), sBool), heap: map[string]string{}, base: sts[0].base}
 	names := map[string]bool{}
 	for _, s := range sts {
 		for n := range s.heap {
